@@ -2,6 +2,7 @@ package main
 
 import (
 	"fmt"
+	"go/types"
 	"golang.org/x/tools/go/ssa"
 	"sort"
 	"strings"
@@ -196,6 +197,72 @@ func init() {
 		}
 		for id, sd := range stages {
 			fmt.Printf("stage %s nexts=%v\n", id, sd.nexts)
+		}
+	}
+}
+
+func init() {
+	// constidx:<scope> — slice index / slice expressions with constant bounds in the scope's functions
+	debugHooks["constidx"] = func(c *Ctx, arg string) {
+		m := c.Scopes().prepare
+		if arg == "parse" {
+			m = c.Scopes().parse
+		}
+		if arg == "run" {
+			m = c.Scopes().run
+		}
+		for _, fn := range c.sortedFns(m) {
+			eachInstr(fn, func(r instrRef) {
+				switch x := r.I.(type) {
+				case *ssa.IndexAddr:
+					if _, isSlice := x.X.Type().Underlying().(*types.Slice); !isSlice {
+						return
+					}
+					if n, ok := constInt(x.Index); ok {
+						fmt.Printf("%-60s index %d of %s @%s\n", c.fnName(fn), n, valueOrigin(x.X), c.instrPos(x))
+					}
+				case *ssa.Slice:
+					if _, isSlice := x.X.Type().Underlying().(*types.Slice); !isSlice {
+						if bt, ok := x.X.Type().Underlying().(*types.Basic); !ok || bt.Info()&types.IsString == 0 {
+							return
+						}
+					}
+					lo, hi := int64(-1), int64(-1)
+					if x.Low != nil {
+						lo, _ = constInt(x.Low)
+					}
+					if x.High != nil {
+						if h, ok := constInt(x.High); ok {
+							hi = h
+						} else {
+							return
+						}
+					}
+					if lo > 0 || hi > 0 {
+						fmt.Printf("%-60s slice [%d:%d] of %s @%s\n", c.fnName(fn), lo, hi, valueOrigin(x.X), c.instrPos(x))
+					}
+				}
+			})
+		}
+	}
+}
+
+func init() {
+	// mapupdates:<scope> — map updates and the origin of the updated map
+	debugHooks["mapupdates"] = func(c *Ctx, arg string) {
+		m := c.Scopes().run
+		if arg == "prepare" {
+			m = c.Scopes().prepare
+		}
+		if arg == "parse" {
+			m = c.Scopes().parse
+		}
+		for _, fn := range c.sortedFns(m) {
+			eachInstr(fn, func(r instrRef) {
+				if mu, ok := r.I.(*ssa.MapUpdate); ok {
+					fmt.Printf("%-58s map=%s @%s\n", c.fnName(fn), valueOrigin(mu.Map), c.instrPos(mu))
+				}
+			})
 		}
 	}
 }
